@@ -338,6 +338,20 @@ def run(tier, rep):
                 cases.append({'id': cid, 'src': src, 'files': files})
                 feats[cid] = {'shape': 'late-findable', 'forms': ['late'], 'all': [], 'n': 1, 'edge_forms': {}, 'cyclic': False, 'star_partial': False, 'failing_body': []}
 
+    # (g) entries of sys.path that are not directories (a regular file, a missing directory, an empty string, a file inside a file): they are skipped -
+    # a module further along the path is found, a missing module is ImportError
+    for bi, bad in enumerate(['"notadir.py"', '"notadir.py/deeper"', '"missingdir"', '"missingdir/x/y"', '"sub/other.py"', '"."']):
+        for form in ('import late%d\nprint("got", late%d.v)', 'from late%d import v\nprint("got", v)'):
+            for missing in ('import nosuch_mod', 'from nosuch_mod import a'):
+                n = 900 + bi
+                body = form.replace('%d', str(n))
+                src = ('import sys\nprint("exec main")\nsys.path[0:0] = [%s]\nfor p in list(sys.path):\n    sys.path.append(p + "/sub")\ntry:\n%sexcept ImportError:\n    print("ImportError")\ntry:\n    %s\n    print("imported?")\nexcept ImportError:\n    print("missing ImportError")\n'
+                       'import late%d as Z\nprint("same", Z.v)\n' % (bad, ''.join('    ' + l + '\n' for l in body.split('\n')), missing, n))
+                files = {'sub/late%d.py' % n: 'print("exec late")\nv = %d\n' % n, 'notadir.py': 'print("exec notadir")\n', 'sub/other.py': 'x = 1\n'}
+                cid = 'g%d' % len(cases)
+                cases.append({'id': cid, 'src': src, 'files': files})
+                feats[cid] = {'shape': 'path-entry-not-a-directory', 'forms': ['late'], 'all': [], 'n': 1, 'edge_forms': {}, 'cyclic': False, 'star_partial': False, 'failing_body': []}
+
     import concurrent.futures
     with concurrent.futures.ThreadPoolExecutor(2) as ex:   # the two observations are independent: overlap them
         fg = ex.submit(run_vrun, 'exec', cases, None, 30)
